@@ -2,46 +2,9 @@
 // implementation-side property oracles, and writes Coq case files for the
 // model/implementation correspondence check.  Built with -tags verif against
 // the current working tree of /repo (replace directive in go.mod).
+// Drivers register themselves from reg_*.go.
 package main
 
-import (
-	"flag"
-	"fmt"
-	"math/rand"
-	"os"
+import "vharness/common"
 
-	"vharness/common"
-)
-
-func main() {
-	prop := flag.String("prop", "", "property id (C01..C20)")
-	seed := flag.Int64("seed", 1, "PRNG seed")
-	tier := flag.String("tier", "quick", "quick|thorough")
-	out := flag.String("out", "", "output directory")
-	replay := flag.String("replay", "", "replay file")
-	flag.Parse()
-	if *prop == "" || *out == "" {
-		fmt.Fprintln(os.Stderr, "usage: vharness -prop Cxx -out DIR [-seed N] [-tier quick|thorough] [-replay F]")
-		os.Exit(2)
-	}
-	d, err := common.Lookup(*prop)
-	if err != nil {
-		fmt.Fprintln(os.Stderr, err)
-		os.Exit(2)
-	}
-	if err := os.MkdirAll(*out, 0o755); err != nil {
-		fmt.Fprintln(os.Stderr, err)
-		os.Exit(2)
-	}
-	cfg := &common.Config{Property: *prop, Seed: *seed, Tier: *tier, OutDir: *out, Replay: *replay,
-		Rng: rand.New(rand.NewSource(*seed))}
-	rep, err := d(cfg)
-	if err != nil {
-		fmt.Fprintln(os.Stderr, "harness error:", err)
-		os.Exit(3)
-	}
-	if err := rep.Write(*out); err != nil {
-		fmt.Fprintln(os.Stderr, err)
-		os.Exit(3)
-	}
-}
+func main() { common.Main() }
